@@ -218,3 +218,37 @@ var c03Err10 = errC10{}
 type errC10 struct{}
 
 func (errC10) Error() string { return "c10 node error" }
+
+// a node body that starts an inner execution unit of its own without handlers: the node's handlers must not
+// fire again for (or on behalf of) the inner unit
+func VerifC10Detach() {
+	ctx := context.Background()
+	vcfg("fifo", 1)
+	var evs []c10Ev
+	withInner := vchoose("innerHandler", 2) == 1
+	g := NewGraph[map[string]any, map[string]any]()
+	_ = g.AddLambdaNode("a", InvokableLambda(func(ctx context.Context, in map[string]any) (map[string]any, error) {
+		var ictx context.Context
+		if withInner {
+			ictx = callbacks.InitCallbacks(ctx, &callbacks.RunInfo{Name: "inner"}, &c10Rec{id: "hi", evs: &evs})
+		} else {
+			ictx = callbacks.InitCallbacks(ctx, &callbacks.RunInfo{Name: "inner"})
+		}
+		ictx = callbacks.OnStart(ictx, 1)
+		callbacks.OnEnd(ictx, 2)
+		return map[string]any{"a": vsymUF("f_a", vFold(in))}, nil
+	}), WithNodeName("A"))
+	_ = g.AddEdge(START, "a")
+	_ = g.AddEdge("a", END)
+	r, err := g.Compile(ctx, WithGraphName("G"))
+	vassert(err == nil, "graph compiles")
+	_, rerr := r.Invoke(ctx, map[string]any{"in": vsymInt("x")}, WithCallbacks(&c10Rec{id: "g", evs: &evs}))
+	vassert(rerr == nil, "run succeeds")
+	for _, u := range []string{"G", "A"} {
+		vassert(c10Count(evs, "g", "start", u) == 1 && c10Count(evs, "g", "end", u) == 1, "run handler: exactly one start and one end for "+u+" although the node body runs an inner unit")
+	}
+	vassert(c10Count(evs, "g", "start", "inner") == 0 && c10Count(evs, "g", "end", "inner") == 0, "run handler is not invoked for a unit initialised without it")
+	if withInner {
+		vassert(c10Count(evs, "hi", "start", "inner") == 1 && c10Count(evs, "hi", "end", "inner") == 1, "inner unit's own handler fires once for it")
+	}
+}
